@@ -8,7 +8,7 @@ let rec nat_of_int n acc = if n <= 0 then acc else nat_of_int (n - 1) (S acc)
 let rec int_of_nat n acc = match n with O -> acc | S m -> int_of_nat m (acc + 1)
 
 let parse (s : Stdlib.String.t) (pos : int ref) : sx =
-  let n = String.length s in
+  let n = Stdlib.String.length s in
   let rec skip () = while !pos < n && (s.[!pos] = ' ' || s.[!pos] = '\t') do incr pos done
   and one () : sx =
     skip ();
@@ -22,12 +22,12 @@ let parse (s : Stdlib.String.t) (pos : int ref) : sx =
       done;
       if !pos >= n then failwith "unclosed";
       incr pos;
-      L (List.rev !items)
+      L (Stdlib.List.rev !items)
     end else begin
       let st = !pos in
       while !pos < n && s.[!pos] >= '0' && s.[!pos] <= '9' do incr pos done;
       if !pos = st then failwith "bad token";
-      N (nat_of_int (int_of_string (String.sub s st (!pos - st))) O)
+      N (nat_of_int (int_of_string (Stdlib.String.sub s st (!pos - st))) O)
     end
   in one ()
 
@@ -36,14 +36,14 @@ let rec print (b : Buffer.t) (x : sx) : unit =
   | N n -> Buffer.add_string b (string_of_int (int_of_nat n 0))
   | L l ->
     Buffer.add_char b '(';
-    List.iteri (fun i y -> if i > 0 then Buffer.add_char b ' '; print b y) l;
+    Stdlib.List.iteri (fun i y -> if i > 0 then Buffer.add_char b ' '; print b y) l;
     Buffer.add_char b ')'
 
 let () =
   try
     while true do
       let line = input_line stdin in
-      if String.length line > 0 then begin
+      if Stdlib.String.length line > 0 then begin
         let pos = ref 0 in
         let k = parse line pos in
         let x = parse line pos in
